@@ -244,6 +244,22 @@ func Measure(cases []Case, scratch, childTest string) ([]Result, error) {
 			reason = "stack-overflow"
 		}
 		res[cur] = Result{Status: "killed:" + reason}
+		// A process that dies without a word (the kernel killed it) may have been brought down by
+		// what an EARLIER case of the batch left behind: memory that was reserved then and touched
+		// only now. The case in flight is therefore tried again alone; if it is innocent, the case
+		// before it is tried alone as well and takes the blame only if it dies there too.
+		if len(cases) > 1 && (reason == "crash" || reason == "oom") {
+			if solo, err := Measure(cases[cur:cur+1], scratch, childTest); err == nil && !strings.HasPrefix(solo[0].Status, "killed:") {
+				res[cur] = solo[0]
+				if cur > start || cur > 0 {
+					if prev := cur - 1; prev >= 0 && !strings.HasPrefix(res[prev].Status, "killed:") {
+						if ps, err := Measure(cases[prev:prev+1], scratch, childTest); err == nil && strings.HasPrefix(ps[0].Status, "killed:") {
+							res[prev] = ps[0]
+						}
+					}
+				}
+			}
+		}
 		start = cur + 1
 		if reason == "cpu" {
 			if cpuStops++; cpuStops >= MaxCPUStops {
